@@ -156,38 +156,39 @@ type Job struct {
 	queue    [][]decision
 	inflight int
 
-	Paths         int
-	Completed     int // paths that ran to the end of the harness
-	AssumeEnded   int
-	Truncated     int
-	TruncatedMsgs map[string]int
-	Unsupported   map[string]int
-	Decisions     int64
-	Steps         int64
-	Asserts       int
-	Discharged    int
-	unknownFeas   int
-	UnknownAssert int
-	Fails         []*Witness
-	Reached       map[string]*Witness
-	Panics        []*Witness
-	TruncWitness  []*Witness
-	AllocEvents   []*Witness
-	Notes         map[string]int
-	Funcs         map[string]bool
-	Models        map[string]int
-	Queries       int
-	SolverSat     int
-	SolverUnsat   int
-	SolverUnknown int
-	SolverTime    time.Duration
-	SolverErrors  []string
-	Wall          time.Duration
-	pathLimitHit  bool
-	wallLimitHit  bool
-	started       time.Time
-	allocBudget   int64
-	start         time.Time
+	Paths          int
+	Completed      int // paths that ran to the end of the harness
+	AssumeEnded    int
+	Truncated      int
+	TruncatedMsgs  map[string]int
+	TruncatedKnown map[string]int // paths cut by the wall limit under active known-finding labels
+	Unsupported    map[string]int
+	Decisions      int64
+	Steps          int64
+	Asserts        int
+	Discharged     int
+	unknownFeas    int
+	UnknownAssert  int
+	Fails          []*Witness
+	Reached        map[string]*Witness
+	Panics         []*Witness
+	TruncWitness   []*Witness
+	AllocEvents    []*Witness
+	Notes          map[string]int
+	Funcs          map[string]bool
+	Models         map[string]int
+	Queries        int
+	SolverSat      int
+	SolverUnsat    int
+	SolverUnknown  int
+	SolverTime     time.Duration
+	SolverErrors   []string
+	Wall           time.Duration
+	pathLimitHit   bool
+	wallLimitHit   bool
+	started        time.Time
+	allocBudget    int64
+	start          time.Time
 }
 
 func (j *Job) countDecision() { j.mu.Lock(); j.Decisions++; j.mu.Unlock() }
@@ -438,6 +439,7 @@ func (j *Job) runPath(sol *Solver, prefix []decision) {
 	i.killThreads()
 
 	var pw *Witness
+	var truncKnown []string
 	if outcome == "truncated" || outcome == "unsupported" {
 		if tw, r := i.witnessUnder("", "truncated", outcome, detail); r == "sat" && tw != nil {
 			j.mu.Lock()
@@ -445,6 +447,9 @@ func (j *Job) runPath(sol *Solver, prefix []decision) {
 				j.TruncWitness = append(j.TruncWitness, tw)
 			}
 			j.mu.Unlock()
+			if outcome == "truncated" && detail == "path wall limit" {
+				truncKnown = tw.Known
+			}
 		}
 	}
 	if outcome == "panic" {
@@ -497,6 +502,16 @@ func (j *Job) runPath(sol *Solver, prefix []decision) {
 	case "assume":
 		j.AssumeEnded++
 	case "truncated":
+		if len(truncKnown) > 0 {
+			// the path ran into its wall limit while a known-finding label was
+			// active (e.g. a call whose count argument makes it loop for ever):
+			// counted under the finding, which the driver checks to be open
+			if j.TruncatedKnown == nil {
+				j.TruncatedKnown = map[string]int{}
+			}
+			j.TruncatedKnown[strings.Join(truncKnown, ",")]++
+			break
+		}
 		j.Truncated++
 		j.TruncatedMsgs[detail]++
 	case "unsupported":
